@@ -583,9 +583,40 @@ def clause_g(rep, F):
     rep.floor("rows of the token dispatch table compared with the specification", dispatch.check(rep, F), 500)
     from . import charclass
     rep.floor("character classes compared with their productions", charclass.check(rep, F, ["is_anchor_char", "is_flow", "is_digit", "is_blank_or_breakz"]), 3)
+    key_candidate_settled(rep, F)
     # a flow collection (or quoted scalar) used as a key may be separated from its ':' by blanks, the value may follow the ':' directly
     from . import C13 as _C13
     rep.floor("writes of the adjacent-value position", _C13.adjacent_position_is_final(rep, F), 2)
+
+
+# What each fetcher does with the pending simple-key candidate before it queues its token (the discipline of the reference scanner,
+# yaml_parser_fetch_* in libyaml): a token that can begin a simple key saves a new candidate, every other token retires the pending one - a
+# candidate left alive across an indicator lets a later ':' turn an earlier, finished node into a key.
+CANDIDATE = {
+    "fetch_stream_end": "remove", "fetch_directive": "remove", "fetch_document_indicator": "remove", "fetch_flow_collection_end": "remove",
+    "fetch_flow_entry": "remove", "fetch_block_entry": "remove", "fetch_key": "remove",
+    "fetch_flow_collection_start": "save", "fetch_anchor": "save", "fetch_tag": "save", "fetch_flow_scalar": "save", "fetch_plain_scalar": "save",
+    "fetch_block_scalar": "either",          # a block scalar cannot be a simple key; libyaml removes, this scanner saves (the candidate goes stale at the line break)
+}
+
+
+def key_candidate_settled(rep, F, rule="key-candidate-settled"):
+    S_ = SCANNER + "::"
+    n = 0
+    for nm, want in sorted(CANDIDATE.items()):
+        f = F.fns.get(S_ + nm)
+        if f is None:
+            continue
+        n += 1
+        calls = {"save": {bb for bb, t, ck, fr in f.calls() if ck == S_ + "save_simple_key"},
+                 "remove": {bb for bb, t, ck, fr in f.calls() if ck == S_ + "remove_simple_key"}}
+        through = calls["save"] | calls["remove"] if want == "either" else calls[want]
+        esc = (None if 0 in through else cfg.flag_reach(f, 0, cfg.return_blocks(f), avoid=through | cfg.err_sink_blocks(f))) if through else [0]
+        rep.check(esc is None, rule, nm, "%s can queue its token without having %s the pending simple-key candidate: a ':' further on finds the candidate of an "
+                  "earlier, finished node alive and makes that node a key (`[ a, : b ]` reads as `[ { a: ~, ~: b } ]`)" % (
+                      nm, "retired (remove_simple_key)" if want == "remove" else "saved a new candidate (save_simple_key)" if want == "save" else "saved or retired"),
+                  site=f.span, detail={"escaping_path": esc})
+    rep.floor("fetchers whose handling of the key candidate is checked", n, 12)
 
 
 # After an indicator token the node is left out exactly when the token that follows cannot start a node but may legally follow.  The sets are
